@@ -123,6 +123,63 @@ node1!(NSrgbLuma, "srgbluma", luma, [mm!(NSrgbLuma, min_luma, max_luma)]);
 node3!(NLmsVk, "lmsvk", long, medium, short, [mn!(NLmsVk, min_long), mn!(NLmsVk, min_medium), mn!(NLmsVk, min_short)]);
 node3!(NLmsBfd, "lmsbfd", long, medium, short, [mn!(NLmsBfd, min_long), mn!(NLmsBfd, min_medium), mn!(NLmsBfd, min_short)]);
 
+/// A user-defined colour type that keeps its transparency in a field of its own (`#[palette(alpha)]`), wired into the
+/// conversion graph by the derive macro exactly as in the documentation of `palette::convert` ("With alpha component"):
+/// only the conversions from and to `Rgb` are written by hand, everything else - including the conversions from and to
+/// `Alpha<C, T>` that carry the transparency over - is generated.
+#[derive(Clone, Copy, Debug, PartialEq, palette::convert::FromColorUnclamped, palette::WithAlpha)]
+#[palette(skip_derives(Rgb), component = "T", rgb_standard = "palette::encoding::Srgb")]
+pub struct UserRgb {
+    red: T,
+    green: T,
+    blue: T,
+    #[palette(alpha)]
+    alpha: T,
+}
+impl<S> FromColorUnclamped<palette::rgb::Rgb<S, T>> for UserRgb
+where
+    Srgb<T>: FromColorUnclamped<palette::rgb::Rgb<S, T>>,
+{
+    fn from_color_unclamped(color: palette::rgb::Rgb<S, T>) -> UserRgb {
+        let srgb = Srgb::from_color_unclamped(color);
+        UserRgb { red: srgb.red, green: srgb.green, blue: srgb.blue, alpha: 1.0 }
+    }
+}
+impl<S> FromColorUnclamped<UserRgb> for palette::rgb::Rgb<S, T>
+where
+    Srgb<T>: palette::convert::IntoColorUnclamped<palette::rgb::Rgb<S, T>>,
+{
+    fn from_color_unclamped(color: UserRgb) -> palette::rgb::Rgb<S, T> {
+        palette::convert::IntoColorUnclamped::into_color_unclamped(Srgb::new(color.red, color.green, color.blue))
+    }
+}
+
+/// Alpha<A> -> UserRgb -> Alpha<A>, next to the same trip of the bare colour through Srgb
+fn user_op<A: Node>(v: &V) -> Value
+where
+    UserRgb: FromColorUnclamped<Alpha<A, T>> + FromColorUnclamped<A>,
+    Alpha<A, T>: FromColorUnclamped<UserRgb>,
+    A: FromColorUnclamped<UserRgb>,
+    NSrgb: FromColorUnclamped<A>,
+    A: FromColorUnclamped<NSrgb>,
+{
+    let a = A::of(v);
+    let aa: Alpha<A, T> = Alpha { color: a, alpha: v[3] };
+    let u = UserRgb::from_color_unclamped(aa);
+    let uo = UserRgb::from_color_unclamped(a);
+    let srgb = NSrgb::from_color_unclamped(a);
+    let back: Alpha<A, T> = Alpha::<A, T>::from_color_unclamped(u);
+    let back_plain: A = A::from_color_unclamped(srgb);
+    let back_opaque: A = A::from_color_unclamped(u);
+    let n = A::N;
+    let e3 = |x: [T; 3]| -> Value { Value::Array(x.iter().map(|c| c.ex()).collect()) };
+    let en = |x: &V| -> Value { Value::Array(x[..n].iter().map(|c| c.ex()).collect()) };
+    json!({"alpha_in": v[3].ex(), "u": e3([u.red, u.green, u.blue]), "u_alpha": u.alpha.ex(),
+           "uo": e3([uo.red, uo.green, uo.blue]), "uo_alpha": uo.alpha.ex(),
+           "srgb": e3([srgb.red, srgb.green, srgb.blue]),
+           "back": en(&back.color.arr()), "back_alpha": back.alpha.ex(), "back_plain": en(&back_plain.arr()), "back_opaque": en(&back_opaque.arr())})
+}
+
 #[derive(Clone, Copy)]
 pub struct Out { pub v: V, pub ok: bool }
 pub type ConvFn = fn(&V, u8) -> Out;
@@ -161,11 +218,41 @@ where
 }
 impl<A, B> No for &P<A, B> {}
 
+// the clamping conversion of whole containers (Vec<A> -> Vec<B>, Box<[A]> -> Box<[B]>; they exist for colours of the
+// same array layout): element 0 of a two-element container, as <<vec form, boxed slice form>>
+pub type ContFn = fn(&V) -> (V, V);
+pub struct PC<A, B>(PhantomData<(A, B)>);
+pub trait YesC { fn get(&self) -> Option<ContFn>; }
+pub trait NoC { fn get(&self) -> Option<ContFn> { None } }
+impl<A, B> YesC for PC<A, B>
+where
+    A: Node,
+    B: Node,
+    Vec<B>: FromColor<Vec<A>>,
+    Box<[B]>: FromColor<Box<[A]>>,
+{
+    fn get(&self) -> Option<ContFn> {
+        fn f<A: Node, B: Node>(v: &V) -> (V, V)
+        where
+            Vec<B>: FromColor<Vec<A>>,
+            Box<[B]>: FromColor<Box<[A]>>,
+        {
+            let other = A::of(&[0.25 as T, 0.25 as T, 0.25 as T, 0.0]);
+            let vb: Vec<B> = Vec::<B>::from_color(vec![A::of(v), other]);
+            let bb: Box<[B]> = <Box<[B]>>::from_color(vec![A::of(v), other].into_boxed_slice());
+            (vb[0].arr(), bb[0].arr())
+        }
+        Some(f::<A, B>)
+    }
+}
+impl<A, B> NoC for &PC<A, B> {}
+
 pub struct NodeInfo {
     pub name: &'static str,
     pub n: usize,
     pub bounds: fn() -> Vec<(Option<T>, Option<T>)>,
     pub bounds_op: fn(&V, bool) -> Value,
+    pub user_op: fn(&V) -> Value,
 }
 
 fn bounds_op<A: Node>(v: &V, alpha: bool) -> Value
@@ -208,12 +295,16 @@ where
 macro_rules! row {
     ($A:ty; [$($B:ty),*]) => { vec![ $( (&P::<$A, $B>(PhantomData)).get() ),* ] };
 }
+macro_rules! rowc {
+    ($A:ty; [$($B:ty),*]) => { vec![ $( (&PC::<$A, $B>(PhantomData)).get() ),* ] };
+}
 macro_rules! universe {
     ([$($A:ty),*]; $list:tt) => {
         pub fn nodes() -> Vec<NodeInfo> {
-            vec![ $( NodeInfo { name: <$A as Node>::NAME, n: <$A as Node>::N, bounds: <$A as Node>::bounds, bounds_op: bounds_op::<$A> } ),* ]
+            vec![ $( NodeInfo { name: <$A as Node>::NAME, n: <$A as Node>::N, bounds: <$A as Node>::bounds, bounds_op: bounds_op::<$A>, user_op: user_op::<$A> } ),* ]
         }
         pub fn table() -> Vec<Vec<Option<ConvFn>>> { vec![ $( row!($A; $list) ),* ] }
+        pub fn table_cont() -> Vec<Vec<Option<ContFn>>> { vec![ $( rowc!($A; $list) ),* ] }
     };
 }
 
@@ -289,6 +380,7 @@ fn walk(nodes: &[NodeInfo], table: &[Vec<Option<ConvFn>>], c: &Value, path_key: 
 pub fn convmain() {
     let nodes = nodes();
     let table = table();
+    let table_cont = table_cont();
     let idx = |name: &str| -> usize {
         nodes.iter().position(|n| n.name == name).unwrap_or_else(|| { eprintln!("unknown node {}", name); std::process::exit(3) })
     };
@@ -330,6 +422,21 @@ pub fn convmain() {
                 }
                 rec.ev(e);
             }
+            "user" => {
+                let ni = idx(c["node"].as_str().unwrap());
+                let mut v: V = [0.0; 4];
+                let ins = c["in"].as_array().unwrap();
+                for (k, s) in ins.iter().enumerate() {
+                    let x = hexf(s.as_str().unwrap());
+                    if k == ins.len() - 1 { v[3] = x } else { v[k] = x }
+                }
+                let mut e = json!({"ev": "user", "id": c["id"], "t": TNAME, "node": nodes[ni].name, "in": enc(&v, nodes[ni].n, true)});
+                match catch(|| (nodes[ni].user_op)(&v)) {
+                    Ok(o) => { for (k, val) in o.as_object().unwrap() { e[k] = val.clone(); } e["panic"] = json!(0); }
+                    Err(_) => { e["panic"] = json!(1); }
+                }
+                rec.ev(e);
+            }
             "conv3" => {
                 let from = idx(c["from"].as_str().unwrap());
                 let to = idx(c["to"].as_str().unwrap());
@@ -347,6 +454,12 @@ pub fn convmain() {
                                 e["u"] = enc(&u.v, n, false); e["c"] = enc(&cl.v, n, false); e["tv"] = enc(&t.v, n, false);
                                 e["t_ok"] = json!(t.ok as u8); e["panic"] = json!(0);
                                 e["fin"] = json!(fin(&u.v, n, false) as u8);
+                                if let Some(g) = table_cont[from][to] {
+                                    match catch(|| g(&v)) {
+                                        Ok((cv, cb)) => { e["cvec"] = enc(&cv, n, false); e["cbox"] = enc(&cb, n, false); }
+                                        Err(_) => { e["panic"] = json!(1); }
+                                    }
+                                }
                             }
                             Err(_) => { e["panic"] = json!(1); }
                         }
